@@ -44,6 +44,7 @@ type s3proxy struct {
 	idx     int
 	url     string
 	hold    chan struct{} // when set: every request waits until it is closed (a stalled endpoint)
+	stall   time.Duration // how long a request answered fStall waits (or until the client gives up)
 }
 
 func (p *s3proxy) ServeHTTP(w http.ResponseWriter, r *http.Request) {
@@ -82,6 +83,14 @@ func (p *s3proxy) ServeHTTP(w http.ResponseWriter, r *http.Request) {
 	p.log = append(p.log, reqRec{kind: kind, key: key, ok: act == fOK})
 	p.mu.Unlock()
 	switch act {
+	case fStall:
+		// the store goes silent on this request: it is answered after p.stall, unless the client
+		// has given up before
+		select {
+		case <-time.After(p.stall):
+		case <-r.Context().Done():
+			return
+		}
 	case fErr:
 		w.Header().Set("Content-Type", "application/xml")
 		w.WriteHeader(http.StatusForbidden)
@@ -1098,6 +1107,9 @@ func twin(v sval) sval {
 }
 
 func (g *gen) l2val() sval {
+	if g.r.Intn(24) == 0 {
+		return sval{tag: 'B', bs: []byte{}} // the zero-length blob x'': a value of its own, not NULL
+	}
 	switch g.r.Intn(8) {
 	case 0:
 		return sval{tag: 'N'}
@@ -1324,6 +1336,42 @@ func runL2History(g *gen, prof l2profile, nops int, stats map[string]int) (strin
 		do(&sop{kind: "upd", c: 0, key: key(), vals: []sval{g.l2val(), g.l2val(), g.l2val()}[:ncols], mask: []bool{true, true, true}[:ncols]})
 		stats["script_wt_inside_auto_tx"]++
 	}
+	ivals := func(v int64) []sval {
+		return []sval{{tag: 'I', i: v}, {tag: 'I', i: v}, {tag: 'I', i: v}}[:ncols]
+	}
+	fullm := []bool{true, true, true}[:ncols]
+	if nconn >= 2 && !prof.vacuum && !prof.roReader && !prof.cacheStory && g.r.Intn(4) == 0 {
+		// a DELETE older than an UPDATE the deleting writer has not seen cannot undo that UPDATE after
+		// merging (C15): the row inserted at :10 and updated at :30 survives the other writer's DELETE at :20
+		k := sval{tag: 'I', i: 970}
+		do(&sop{kind: "wt", c: 0, t: l2BaseSec + 10})
+		do(&sop{kind: "ins", c: 0, key: k, vals: ivals(1)})
+		do(&sop{kind: "refresh", c: 1})
+		do(&sop{kind: "wt", c: 0, t: l2BaseSec + 30})
+		do(&sop{kind: "upd", c: 0, key: k, vals: ivals(2), mask: fullm})
+		do(&sop{kind: "wt", c: 1, t: l2BaseSec + 20})
+		do(&sop{kind: "del", c: 1, key: k})
+		do(&sop{kind: "refresh", c: 0})
+		do(&sop{kind: "refresh", c: 1})
+		do(&sop{kind: "sel", c: 0})
+		do(&sop{kind: "sel", c: 1})
+		stats["script_stale_delete_vs_update"]++
+	}
+	if prof.autoTime && g.r.Intn(3) == 0 {
+		// an explicit write time far in the future, used once, does not leak into later automatic
+		// write times — of this or of any other connection in the process (C15, C19): a row inserted
+		// with the automatic time (now) is replaced by an UPDATE at an explicit time in 2050
+		c := g.r.Intn(nconn)
+		do(&sop{kind: "wt", c: c, t: 4102444800 + int64(g.r.Intn(1000))})
+		do(&sop{kind: "ins", c: c, key: sval{tag: 'I', i: 960}, vals: ivals(1)})
+		do(&sop{kind: "wt", c: c, t: 0})
+		do(&sop{kind: "ins", c: c, key: sval{tag: 'I', i: 961}, vals: ivals(1)})
+		do(&sop{kind: "wt", c: c, t: 2524608000})
+		do(&sop{kind: "upd", c: c, key: sval{tag: 'I', i: 961}, vals: ivals(2), mask: fullm})
+		do(&sop{kind: "sel", c: c})
+		do(&sop{kind: "wt", c: c, t: nextT()})
+		stats["script_future_time_does_not_leak"]++
+	}
 	if prof.connAttrs && prof.autoTime && g.r.Intn(3) == 0 {
 		// a transaction with the automatic write time whose connection sets a DEADLINE between two
 		// writes to one row: the transaction keeps its one write time (the second write is read back),
@@ -1449,7 +1497,9 @@ func runL2History(g *gen, prof l2profile, nops int, stats map[string]int) (strin
 				intx[c] = false
 				autoTx[c] = false
 			}
-		case ch < 92 && (nconn > 1 || prof.faults):
+		case ch < 92 && (nconn > 1 || prof.faults || ch < 89):
+			// (a lone connection re-opens its table now and then: what it reads afterwards comes from
+			//  storage, not from the tree it built in memory)
 			if !intx[c] {
 				do(&sop{kind: "refresh", c: c})
 			}
@@ -1688,6 +1738,25 @@ func runL2(seed int64, n int, dir string, profName string) error {
 	if err != nil {
 		return err
 	}
+	if profName == "deadline" {
+		// no histories: the deadline probes alone (C14)
+		defer cf.Close()
+		jf, err := os.Create(dir + "/impl.txt")
+		if err != nil {
+			return err
+		}
+		defer jf.Close()
+		for i, cl := range deadlineClasses {
+			fmt.Fprintf(cf, "%d probe deadline-bounds-a-statement-stalled-on-%s\n", i+1, cl)
+			fmt.Fprintf(jf, "%d %s\n", i+1, probeDeadline(cl))
+		}
+		sf, _ := os.Create(dir + "/stats.txt")
+		defer sf.Close()
+		fmt.Fprintf(sf, "probe_deadline %d\n", len(deadlineClasses))
+		ef, _ := os.Create(dir + "/errors.txt")
+		ef.Close()
+		return nil
+	}
 	defer cf.Close()
 	jf, err := os.Create(dir + "/impl.txt")
 	if err != nil {
@@ -1736,6 +1805,11 @@ func runL2(seed int64, n int, dir string, profName string) error {
 		fmt.Fprintf(cw, "%d probe subsecond-write-time\n", n+1)
 		fmt.Fprintf(iw, "%d %s\n", n+1, probeSubsecondWriteTime())
 		stats["probe_subsecond"]++
+	}
+	if profName == "vacuum" {
+		fmt.Fprintf(cw, "%d probe vacuum-reclaims-every-expired-marker\n", n+1)
+		fmt.Fprintf(iw, "%d %s\n", n+1, probeVacuumReclaims())
+		stats["probe_vacuum_reclaims"]++
 	}
 	if profName == "tx" {
 		for k := 0; k < 3; k++ {
